@@ -383,10 +383,14 @@ func (db *DB) View(fn func(txn *Txn) error) error {
 
 // ---------------------------------------------------------------- Txn
 
+// pending: a write of an open transaction. As in the engine, the transaction keeps a *reference* to the
+// key and value slices until it commits ("users must not modify or reuse them until the end of the
+// transaction"): what is committed is what the slices hold at commit time.
 type pending struct {
-	key string
-	val []byte
-	del bool
+	key    string // the key at Set time (index of the transaction's own reads)
+	keyRef []byte
+	val    []byte
+	del    bool
 }
 
 type Txn struct {
@@ -432,7 +436,7 @@ func (t *Txn) modify(key []byte, val []byte, del bool) error {
 	if t.index == nil {
 		t.index = map[string]int{}
 	}
-	p := pending{key: string(key), val: append([]byte(nil), val...), del: del}
+	p := pending{key: string(key), keyRef: key, val: val, del: del}
 	if i, ok := t.index[p.key]; ok {
 		t.writes[i] = p
 	} else {
@@ -591,7 +595,11 @@ func (t *Txn) apply() (uint64, error) {
 	}
 	v.ts++
 	for _, w := range t.writes {
-		v.data[w.key] = append(v.data[w.key], ver{ts: v.ts, val: w.val, del: w.del})
+		k := w.key
+		if w.keyRef != nil {
+			k = string(w.keyRef)
+		}
+		v.data[k] = append(v.data[k], ver{ts: v.ts, val: append([]byte(nil), w.val...), del: w.del})
 	}
 	ts := v.ts
 	v.mu.Unlock()
